@@ -52,7 +52,12 @@ def run_lemma(lm, config=None):
         except PathEnd:
             pass
         except OutOfReach as e:
-            reasons.append(str(e))
+            try:
+                dead = I.query(I.st.pc, z3.BoolVal(True), 4000) == z3.unsat
+            except Exception:
+                dead = False
+            if not dead:
+                reasons.append(str(e))
         obligations.extend(I.st.obligations)
     res.paths = I.br.paths_done
     res.used_lemmas = sorted(I.used_lemmas)
